@@ -10,11 +10,13 @@ RANK = {S.NONE: 0, S.READY: 1, S.WORKING: 2, S.FINISHED: 3}
 class Sim(object):
     """A generated model, simulated once under the step observer."""
 
-    def __init__(self, spec, phases=PHASES, opts=None, **build_kw):
+    def __init__(self, spec, phases=PHASES, opts=None, pre=None, **build_kw):
         self.spec = spec
         self.opts = opts if opts is not None else spec["opts"]
-        self.h = S.build(spec, **build_kw)
+        self.h = S.warm_build(spec, **build_kw)
         self.p = self.h.project
+        if pre is not None:
+            pre(self.h)  # something that happens to the project before the observed run
         self.obs = Observer(phases=phases).install(self.p)
         try:
             S.simulate(self.p, self.opts)
@@ -27,6 +29,7 @@ class Sim(object):
         self.n = len(self.tasks)
         self.preds = gen.preds(spec)
         self.float_mode = bool(spec.get("float_mode"))
+        self.warm = (spec.get("warm") or {}).get("mode")
         self.exempt = [t.get("prog", 0.0) >= 1.0 - TOL for t in self.tasks]
         self.tids = [S.tid(i) for i in range(self.n)]
         self.wids = [S.wid(i) for i in range(len(spec["workers"]))]
